@@ -22,7 +22,7 @@ MUT = tables.FS_MUTATORS
 def run(ctx):
     F = ctx.F['cli']
     ctx.rule('C03.R1', 'with_commit_lock: exclusive lock on lockdir/commit.lock, closure called once under its Ok edge, file kept open; the lock path is never unlinked/renamed', floor=8)
-    ctx.rule('C03.R2', 'every fs mutation of a live hub path is inside a held region', floor=3)
+    ctx.rule('C03.R2', 'every fs mutation of a live hub path is inside a held region', floor=2)
     ctx.rule('C03.R3', 'held region: current_hash read inside, cas_decide(current, client expected), mutation on the matching edge', floor=5)
     ctx.rule('C03.R4', 'cas_decide == Commit iff current == expected', floor=2)
     ctx.rule('C03.R5', 'success replies are built only under the Ok edge of the file operation they report', floor=3)
@@ -200,18 +200,32 @@ def r3_r5(ctx, F, hub):
             classes = [hub.path_class(b, mt['args'][p]) for p in MUT[c]]
             short = c.split('::')[-1]
             if c.endswith('rename') and classes == ['staging', 'live']:
-                # publishing rename (dst exactly the live path) vs conflict-copy rename (live path + suffix)
-                # (a suffix pushed onto the name - inline or inside a crate-local naming helper - makes it a derived name)
-                pure_live = not any(o.kind == 'mutcall' for _, o in hub.deep_origins(b, mt['args'][1], mut_calls=True)) and \
-                    not path_shape(F, fl, mt['args'][1])[1]
-                if pure_live:
-                    ctx.check(bool(commit_e) and cfg.edges_guard(commit_e, mb), 'C03.R3', '%s:publish-on-Commit' % handler, 'rename(tmp, dst) on the Commit edge',
-                              'the publishing rename is reachable without cas_decide == Commit (stale write overwrites the live file)', term_loc(b, mb))
-                    reply_rule(ctx, b, fl, mb, 'PutResult', 'committed', 1, '%s:committed-true' % handler)
-                else:
-                    ctx.check(bool(conflict_e) and cfg.edges_guard(conflict_e, mb), 'C03.R3', '%s:conflict-copy-on-Conflict' % handler,
-                              'rename(tmp, dst+".conflict-…") on the Conflict edge', 'the conflict-copy rename is not confined to the Conflict edge', term_loc(b, mb))
-                    reply_rule(ctx, b, fl, mb, 'PutResult', 'committed', 0, '%s:committed-false' % handler)
+                # publishing rename (dst exactly the live path) vs conflict-copy rename (live path + suffix), judged on each
+                # outcome of cas_decide with the definitions of the other outcome left out: the two may share one call site
+                # (`rename(&tmp, &landing.target)`) or have one each
+                views = (('Commit', commit_e, conflict_e), ('Conflict', conflict_e, commit_e))
+                judged = 0
+                for vname, mine, other in views:
+                    excl = (fl.only_through(other) - fl.only_through(mine)) if other else set()
+                    if mb in excl or not mine:
+                        continue
+                    judged += 1
+                    with fl.restricted(excl):
+                        pure_live = not any(o.kind == 'mutcall' for _, o in hub.deep_origins(b, mt['args'][1], mut_calls=True)) and \
+                            not path_shape(F, fl, mt['args'][1])[1]
+                        guarded = cfg.edges_guard(commit_e | conflict_e, mb) and (cfg.edges_guard(mine, mb) or other and mb not in fl.only_through(other))
+                        if vname == 'Commit':
+                            ctx.check(pure_live and guarded, 'C03.R3', '%s:publish-on-Commit' % handler, 'rename(tmp, dst) on the Commit edge',
+                                      'the publishing rename is reachable without cas_decide == Commit (stale write overwrites the live file)' if pure_live or not guarded else
+                                      'on the Commit outcome the staged file is renamed onto a derived name, not the live path', term_loc(b, mb))
+                            reply_rule(ctx, b, fl, mb, 'PutResult', 'committed', 1, '%s:committed-true' % handler)
+                        else:
+                            ctx.check((not pure_live) and guarded, 'C03.R3', '%s:conflict-copy-on-Conflict' % handler,
+                                      'rename(tmp, dst+".conflict-…") on the Conflict edge', 'the conflict-copy rename is not confined to the Conflict edge' if not pure_live else
+                                      'on the Conflict outcome the staged file is renamed onto the live path: a stale write overwrites what another client committed', term_loc(b, mb))
+                            reply_rule(ctx, b, fl, mb, 'PutResult', 'committed', 0, '%s:committed-false' % handler)
+                if not judged:
+                    ctx.bad('C03.R3', '%s:rename-outside-decision' % handler, 'a rename of the staged file is reachable on neither outcome of cas_decide', term_loc(b, mb))
             elif c.endswith('remove_file') and classes == ['live']:
                 ctx.check(bool(commit_e) and cfg.edges_guard(commit_e, mb), 'C03.R3', '%s:remove-on-Commit' % handler, 'remove_file(dst) on the Commit edge',
                           'the delete is reachable without cas_decide == Commit', term_loc(b, mb))
@@ -253,7 +267,15 @@ def reply_rule(ctx, b, fl, op_bb, name, field, val, key):
             rv = st['rv']
             if rv['k'] == 'agg' and rv.get('adt') == 'wire::Response' and rv.get('vname') == name:
                 i = rv['fields'].index(field)
-                if rv['ops'][i]['k'] == 'const' and rv['ops'][i].get('v') == val and cfg.can_reach(op_bb, bi):
+                if bi in fl.exclude_blocks:
+                    continue
+                fv = rv['ops'][i].get('v') if rv['ops'][i]['k'] == 'const' else None
+                if fv is None:
+                    cs = {o.key for o in fl.origins(rv['ops'][i]) if o.kind != 'comb'} if rv['ops'][i]['k'] != 'const' else set()
+                    kinds = {o.kind for o in fl.origins(rv['ops'][i]) if o.kind != 'comb'} if rv['ops'][i]['k'] != 'const' else set()
+                    if kinds == {'const'} and len(cs) == 1:
+                        fv = list(cs)[0]
+                if fv is not None and int(bool(fv)) == val and cfg.can_reach(op_bb, bi):
                     found = True
                     # once the operation has run, the success reply must be unreachable from its Err outcome (a path that
                     # legitimately skips the operation - nothing to delete - is judged by the absent-edge rule below)
